@@ -118,9 +118,44 @@ def search(ctx, hints):
         return dict(evaluations=0, distinct_nontrivial=0, violations=[], samples=[],
                     error='searcher exited %d: %s' % (rc, (se or so)[-800:]))
     r = json.load(open(out))
-    return dict(evaluations=r.get('evaluations', 0), distinct_nontrivial=r.get('distinct', 0),
-                samples=r.get('samples', [])[:6], violations=r.get('violations', []),
-                counts=r.get('counts', {}))
+    res = dict(evaluations=r.get('evaluations', 0), distinct_nontrivial=r.get('distinct', 0),
+               samples=r.get('samples', [])[:6], violations=r.get('violations', []),
+               counts=r.get('counts', {}),
+               concurrency_note='the concurrent phase (N goroutines proving/verifying at once, compared with the sequential '
+                                'answers) and the history phase are EVIDENCE, not proof: a schedule-dependent defect may need several runs')
+    if ctx.thorough():
+        res['race'] = _race_run(ctx)
+        res['violations'] = res['violations'] + res['race'].get('violations', [])
+    return res
+
+
+def _race_run(ctx):
+    """thorough: the concurrent phase again under the Go race detector (evidence, not proof)."""
+    import shutil
+    binp, log = vlib.go_build(ctx, vlib.HARNESS, './cmd/c16', 'c16race', race=True)
+    if not binp:
+        return dict(ran=False, note='race build failed: ' + log[-400:])
+    cwd = ctx.scratch('c16race')
+    out = os.path.join(ctx.work, 'c16.race.json')
+    rc, so, se = vlib.run([binp, 'mode=search', 'only=concurrent', 'workers=16', 'out=' + out, 'tier=quick'], cwd=cwd,
+                          env=dict(VERIF_SEED=str(ctx.seed), VERIF_DISABLE_NTP='1', GORACE='halt_on_error=0 exitcode=66'), timeout=1500)
+    shutil.rmtree(cwd, ignore_errors=True)
+    res = dict(ran=True, exit=rc, violations=[])
+    txt = se + so
+    if 'WARNING: DATA RACE' in txt:
+        i = txt.index('WARNING: DATA RACE')
+        rep = txt[i:i + 1800]
+        # only races inside the VRF packages are this property's business
+        if 'common/ed25519' in rep or 'consensus/logical' in rep or 'consensus/vrf' in rep:
+            res['violations'].append(dict(key='data-race-in-vrf-code', desc='Go race detector: concurrent ECVRFProve/ECVRFVerify race on shared memory',
+                                          replay=dict(mode='concurrent-race', report=rep, rerun='go build -race harness/cmd/c16; mode=search only=concurrent workers=16')))
+        res['report'] = rep[:600]
+    if os.path.exists(out):
+        try:
+            res['violations'] += json.load(open(out)).get('violations', [])
+        except Exception:
+            pass
+    return res
 
 
 def replay(ctx, payload):
